@@ -69,8 +69,20 @@ pub fn update(
         let end: isize = token.range.end.try_into().expect("Range is too big");
         let new_start: usize = (start + offset).try_into().expect("Range is too big");
         let new_end: usize = (end + offset).try_into().expect("Range is too big");
+        let errors = token
+            .errors
+            .into_iter()
+            .map(|SplError(range, msg)| {
+                let start: isize = range.start.try_into().expect("Range is too big");
+                let end: isize = range.end.try_into().expect("Range is too big");
+                let new_start: usize = (start + offset).try_into().expect("Range is too big");
+                let new_end: usize = (end + offset).try_into().expect("Range is too big");
+                SplError(new_start..new_end, msg)
+            })
+            .collect();
         Token {
             range: new_start..new_end,
+            errors,
             ..token
         }
     }
